@@ -123,6 +123,29 @@ def o8_6_flush_faults(mir, tier):
         if n >= 3: return [(None, Enum('Ok', ((),)), st)]
         return [(oks[n], Enum('Ok', ((),)), st), (Not(oks[n]), io_err(), st)]
     P[r'<Box<dyn RandomAccessFile> as std::io::Write>::write_all'] = write_all
+    # a plain `write` may accept fewer bytes than it was given (the Write contract): the accepted count is free in 0..=len
+    def write_partial(se, env, pc, f, data):
+        d = se.deref(env, data) if isinstance(data, Ref) else data
+        ln = d['len'] if isinstance(d, dict) and 'len' in d else None
+        if ln is None: raise Inconclusive('write of %r' % (d,))
+        acc = BitVec('bytes_accepted_%d' % len(env['$state']['events']), 64)
+        st = add(env, ('partial_write', ln, acc))
+        return [(ULE(acc, ln), Enum('Ok', (acc,)), st)]
+    P[r'<Box<dyn RandomAccessFile> as std::io::Write>::write'] = write_partial
+    def buf_len(se, env, v):
+        b = se.deref(env, v) if isinstance(v, Ref) else v
+        return b['len'] if isinstance(b, dict) and 'len' in b else (bv(len(b)) if isinstance(b, list) else None)
+    def buf_extend(se, env, pc, v, src):
+        b = dict(se.deref(env, v)); n = buf_len(se, env, src)
+        if n is None: raise Inconclusive('extend with %r' % (src,))
+        b['len'] = b['len'] + n; se.store(env, v, b); return lib.one(env, ())
+    P[r'<Vec<u8> as Extend<.*>>::extend'] = buf_extend; P[r'Vec::extend_from_slice'] = buf_extend
+    def buf_push(se, env, pc, v, x):
+        b = dict(se.deref(env, v)); b['len'] = b['len'] + bv(1); se.store(env, v, b); return lib.one(env, ())
+    P[r'Vec::push'] = buf_push
+    P[r'Vec::with_capacity'] = lambda se, env, pc, n: lib.one(env, {'len': bv(0), 'kind': 'assembled', 'off': bv(0)})
+    P[r'Vec::len'] = lambda se, env, pc, v: lib.one(env, buf_len(se, env, v))
+    P[r'<Vec<u8> as Deref>::deref'] = lib.ident
     P[r'snap::write::FrameEncoder::new'] = lambda se, env, pc, v: lib.one(env, {'abstract': True, '__ty': 'FrameEncoder'})
     P[r'<snap::write::FrameEncoder<Vec<u8>> as std::io::Write>::write_all'] = lambda se, env, pc, e, d: lib.one(env, Enum('Ok', ((),)))
     P[r'<snap::write::FrameEncoder<Vec<u8>> as std::io::Write>::flush'] = lambda se, env, pc, e: lib.one(env, Enum('Ok', ((),)))
@@ -148,9 +171,13 @@ def o8_6_flush_faults(mir, tier):
                  ('flushing a data block fails although every step succeeded', Or(BoolVal(ok), Not(And(BoolVal(complete), executed_ok)))),
                  ('the file is written to after a failed write of the same block', BoolVal(True) if nw == 0 else And(*[Or(oks[i], BoolVal(nw <= i + 1)) for i in range(min(nw, 3))])),
                  ('the filter block builder is told about a block that was not written completely', Or(BoolVal('notify' not in kinds), And(BoolVal(complete), executed_ok)))]
+        partial = [e for e in evs if e[0] == 'partial_write']
+        if partial:
+            posts = [('a block is written with a plain write whose accepted byte count is ignored: after a short write the file offset the builder keeps is ahead of the file (every later block handle, the index and the footer point at the wrong bytes)',
+                      Or(BoolVal(not ok), And(*[e[2] == e[1] for e in partial])))]
         res.cases[','.join(kinds) + (' Ok' if ok else ' Err')] = 1
         for label, post, m in ex.check_posts(posts, pc):
-            res.violations.append({'label': label, 'events': kinds, 'model': {str(x): mval(m, x) for x in oks + [fl_ok]}, 'replay': ['table_write_transient_fault_sweep']})
+            res.violations.append({'label': label, 'events': kinds, 'model': {str(x): mval(m, x) for x in oks + [fl_ok]}, 'replay': ['short_write_flush'] if 'plain write' in label else ['table_write_transient_fault_sweep']})
     tb = mir.mk_struct('TableBuilder', options={'abstract': True}, file_closed=BoolVal(False), file='file', file_number=bv(1), current_offset=off0,
                        data_block_builder={'abstract': True, '__ty': 'BlockBuilder'}, index_block_builder={'abstract': True, '__ty': 'BlockBuilder'},
                        filter_block_builder={'abstract': True, '__ty': 'FilterBlockBuilder'}, num_entries=bv(0), maybe_last_key_added=Enum('None'))
@@ -166,6 +193,8 @@ def o8_6_flush_faults(mir, tier):
 
 def o8_6_confirm(v, out):
     if out.get('_rc') != 0: return (False, 'native run failed: %s' % out.get('_stderr', '')[-300:])
+    if v['replay'][0] == 'short_write_flush':
+        return (out.get('flushed') != 'true' or out.get('wrong') != '0', 'native: table files accept at most 512 bytes per write call: the flush of 300 entries %s, %s table file(s), %s keys unreadable or wrong' % ('succeeded' if out.get('flushed') == 'true' else 'FAILED', out.get('tables'), out.get('wrong')))
     return (out.get('bad', '0') != '0', 'native: a flush during which exactly one write to the table file fails (%s positions tried): %s position(s) leave acknowledged keys with an older value / not found (first: %s)'
             % (out.get('cases'), out.get('bad'), out.get('first_bad')))
 
